@@ -112,6 +112,23 @@ def check_case(data: dict, lab: Labels) -> None:
     all_live: list[Any] = list({id(n): n for n in T.live_nodes(b.root)}.values())
     detached: set[int] = {id(b.of(e)) for e in ex.done if e.det}
     lab.tag_if(bool(detached), "tree-contains-detached-nodes")
+    if data.get("churn"):
+        # between the construction of the tree and the copy: hundreds of unrelated property values go
+        # through the library, then nodes whose tuple values are `==` to the tree's but of other element
+        # types ((1.0, 2.0) for (1, 2)); a copy made afterwards is still digested from its own values
+        for i in range(data["churn"]):
+            M.cls("LeafA")(v=10**6 + i)
+            M.cls("Strs")(a=f"churn-{i}")
+        n_tw = 0
+        for n in all_live:
+            if type(n).__name__ == "Vals":
+                if n.t and all(type(e) is int for e in n.t):
+                    M.cls("Vals")(t=tuple(float(e) for e in n.t))
+                    n_tw += 1
+                if type(n.ft[0]) is int:
+                    M.cls("Vals")(ft=(float(n.ft[0]), n.ft[1]))
+                    n_tw += 1
+        lab.tag_if(n_tw > 0, "churn-then-equal-values-of-other-types")
     if id(x) in detached:
         lab.tag("subject-detached")
 
@@ -263,6 +280,7 @@ def st_case(ctx: Ctx):
             "c2": st.integers(0, 5),
             "two": st.booleans(),
             "n": st.integers(0, 100),
+            "churn": st.sampled_from([0, 0, 0, 0, 0, 0, 300]),
         }
     )
 
